@@ -129,10 +129,27 @@ def sqrtm(M):
     return tree_map(jnp.vectorize(_sqrtm, signature=sig), M)
 
 
+@jax.custom_jvp
 def _logm(M):
     v, U = jnp.linalg.eigh(M)
     vlog = jnp.log(v)
     return U @ (vlog[:, jnp.newaxis] * U.T)
+
+
+@_logm.defjvp
+def _logm_jvp(M, dM):
+    # Note: Only stable 1st derivative! The derivative of `eigh` is singular for
+    # repeated eigenvalues; use the divided differences of the logarithm
+    # (log(a) - log(b)) / (a - b) = log1p(x) / (x * b) with x = (a - b) / b instead
+    M, dM = M[0], dM[0]
+    v, U = jnp.linalg.eigh(M)
+    dM = U.T @ dM @ U
+    x = (v[:, jnp.newaxis] - v[jnp.newaxis, :]) / v[jnp.newaxis, :]
+    small = jnp.abs(x) < 1e-8
+    xs = jax.lax.select(small, jnp.ones_like(x), x)
+    ratio = jax.lax.select(small, 1.0 - 0.5 * x, jnp.log1p(xs) / xs)
+    dres = dM * ratio / v[jnp.newaxis, :]
+    return U @ (jnp.log(v)[:, jnp.newaxis] * U.T), U @ dres @ U.T
 
 
 def logm(M):
